@@ -13,6 +13,13 @@ confidences in between.  A sample of the TLC initial states is therefore also dr
 PageDecoder set: logits M1 -> other logits M2 -> (a call that may fail) -> M1 with another constant per frame -> one-hot logits
 spelling the transcription, every confidence asked after every assignment.  TLC judges every step on the matrix recorded for
 that step (range, one-hot => 1, monotone test) and steps 1 / 3 against each other (shift invariance on the same object).
+
+Runs (round 8): real CTC output is not spiky - the same character sits on several consecutive frames, characters are adjacent
+without a blank and a long run crosses the mid-point border into the neighbour's evidence window.  "One-hot" in the design
+module (Confidence!OneHotForOf) therefore means: one-hot rows whose hot symbols spell the transcription along ANY CTC path, each
+character aligned to any frame of its run.  The D = 1 configurations enumerate every one-hot matrix x label string of up to
+three characters x alignment; on matrices with one-hot rows the confidences are also asked with the alignment the code finds
+itself (`_auto_alignment`: no alignment passed, and align_text + own log-posteriors as the exports do).
 """
 import itertools
 import math
@@ -40,13 +47,19 @@ ALPHABET = ["a", "b", "c", "d"]
 
 
 def configs(tier):
+    # D = 1: every row is one-hot, i.e. the matrices are the frame-wise outputs of a CTC network WITH RUNS (the same character on
+    # several consecutive frames, adjacent characters without a blank, first / middle / last character being the long one) for
+    # transcriptions of up to three characters - the shapes the one-hot clause of the statement is about (round 8)
     q = [{"T": 2, "NC": 3, "D": 4, "MaxL": 2, "Ks": [2, 3], "cap": None},
-         {"T": 3, "NC": 3, "D": 3, "MaxL": 2, "Ks": [3], "cap": None}]
+         {"T": 3, "NC": 3, "D": 3, "MaxL": 2, "Ks": [3], "cap": None},
+         {"T": 4, "NC": 3, "D": 1, "MaxL": 3, "Ks": [2], "cap": None}]
     if tier == "quick":
         return q
     return q + [{"T": 3, "NC": 3, "D": 4, "MaxL": 2, "Ks": [2], "cap": 30000},
                 {"T": 4, "NC": 3, "D": 2, "MaxL": 2, "Ks": [3], "cap": 20000},
-                {"T": 2, "NC": 4, "D": 3, "MaxL": 2, "Ks": [2], "cap": None}]
+                {"T": 2, "NC": 4, "D": 3, "MaxL": 2, "Ks": [2], "cap": None},
+                {"T": 5, "NC": 3, "D": 1, "MaxL": 3, "Ks": [2], "cap": None},
+                {"T": 4, "NC": 4, "D": 1, "MaxL": 3, "Ks": [3], "cap": None}]
 
 
 def consts_of(c, strict=None):
@@ -147,7 +160,8 @@ def _line_case(item):
     rng = random.Random(seed)
     rec = {"kind": "line", "w": [list(r) for r in wm], "labels": list(labels), "al": list(al), "seed": seed, "outcome": "ok",
            "lc": [], "lc_s": [], "let": [], "let_s": [], "cmp": 0, "cmp_s": 0, "lce": [], "lce_s": [], "lce_neg": [], "lce_neg_s": [], "sys": [], "sys_s": [],
-           "over": 0, "dshift": 0, "dshift_cmp": 0, "one": 0, "one_cmp": 0}
+           "over": 0, "dshift": 0, "dshift_cmp": 0, "one": 0, "one_cmp": 0,
+           "auto": "none", "al_auto": [], "lc_auto": [], "over_auto": 0, "one_auto": 0}
     try:
         c0 = [rng.uniform(-3, 3) for _ in range(t)]
         c1 = [x + rng.choice([-1, 1]) * rng.uniform(0.5, 4) for x in c0]
@@ -199,9 +213,44 @@ def _line_case(item):
         rec["dshift_cmp"] = _u12(abs(cm - cms))
         rec["one"] = _u12(float(np.max(1.0 - np.concatenate([lc, let, lcs, lets]))))
         rec["one_cmp"] = _u12(max(1.0 - cm, 1.0 - cms))
+        if nonsquare and all(sum(1 for x in r if x) == 1 for r in wm):
+            _auto_alignment(rec, wm, d, (c0, c1), chars, lab)
     except Exception as ex:      # part of the observation
         rec["outcome"] = "exception:" + type(ex).__name__
     return rec
+
+
+def _auto_alignment(rec, wm, d, consts, chars, lab):
+    """one-hot rows (which of them spell the transcription is decided by TLC from the recorded matrix): the way the SYSTEM asks -
+    the ALTO / PAGE export aligns the transcription itself with `align_text` and hands that alignment and its own log-posteriors
+    to get_line_confidence; merge_ocr_results passes no alignment at all.  Both forms, on both renderings; the alignment the code
+    chose is recorded (al_auto, 1-based, of the first rendering) but not judged - any optimal alignment is admissible."""
+    from pero_ocr.core.layout import TextLine
+    from pero_ocr.core.confidence_estimation import get_line_confidence
+    from pero_ocr.core.force_alignment import align_text
+    try:
+        got = []
+        for cs in consts:
+            line = TextLine(id="l", logits=render(wm, d, cs), characters=chars)
+            got.append(np.asarray(get_line_confidence(line, lab), dtype=float))
+            logprobs = line.get_full_logprobs()
+            al_own = align_text(-logprobs, lab, logprobs.shape[1] - 1)
+            if not rec["al_auto"]:
+                rec["al_auto"] = [int(x) + 1 for x in al_own]
+            got.append(np.asarray(get_line_confidence(line, lab, al_own, logprobs), dtype=float))
+        if any(len(g) != len(lab) for g in got):
+            rec["auto"] = "wrong-number-of-confidences"
+            return
+        allv = np.concatenate(got)
+        if not np.isfinite(allv).all():
+            rec["auto"] = "exception:NaN"
+            return
+        rec["lc_auto"] = [_m6(x) for x in got[0]]
+        rec["over_auto"] = _u12(max(float(np.max(allv - 1.0)), float(np.max(-allv))))
+        rec["one_auto"] = _u12(float(np.max(1.0 - allv)))
+        rec["auto"] = "ok"
+    except Exception as ex:      # part of the observation (judged by TLC only where the matrix spells the transcription)
+        rec["auto"] = "exception:" + type(ex).__name__
 
 
 HIST_KINDS = ("spelled", "rows", "rolled")
@@ -292,7 +341,8 @@ def _hist_case(item):
     rng = random.Random(seed)
     rec = {"kind": "hist", "w": [list(r) for r in wm], "labels": list(labels), "al": list(al), "seed": seed, "outcome": "ok",
            "lc": [], "lc_s": [], "let": [], "let_s": [], "cmp": 0, "cmp_s": 0, "lce": [], "lce_s": [], "lce_neg": [], "lce_neg_s": [], "sys": [], "sys_s": [],
-           "over": 0, "dshift": 0, "dshift_cmp": 0, "one": 0, "one_cmp": 0, "steps": [], "second": "", "failing_call": False}
+           "over": 0, "dshift": 0, "dshift_cmp": 0, "one": 0, "one_cmp": 0, "steps": [], "second": "", "failing_call": False,
+           "auto": "none", "al_auto": [], "lc_auto": [], "over_auto": 0, "one_auto": 0}
     try:
         c0 = [rng.uniform(-3, 3) for _ in range(t)]
         c1 = [x + rng.choice([-1, 1]) * rng.uniform(0.5, 4) for x in c0]
@@ -697,7 +747,9 @@ def _what_line(tr):
     return ("weights=%s labels=%s alignment=%s -> line conf %s / shifted %s, letter conf %s / %s, compute_line_confidence %s / %s "
             "(millionths), over=%s dshift=%s dshift_cmp=%s (1e-12), confident_enough %s / %s, PageDecoder keeps the line at -1, -0.001, 0 .. 1: %s, outcome=%s" % (
                 tr["w"], tr["labels"], tr["al"], tr["lc"], tr["lc_s"], tr["let"], tr["let_s"], tr["cmp"], tr["cmp_s"], tr["over"],
-                tr["dshift"], tr["dshift_cmp"], tr["lce"], tr["lce_s"], tr.get("sys"), tr["outcome"]))
+                tr["dshift"], tr["dshift_cmp"], tr["lce"], tr["lce_s"], tr.get("sys"), tr["outcome"])) + (
+                    "; with the alignment the code finds itself (align_text -> frames %s): line conf %s, over_auto=%s one_auto=%s (1e-12), outcome=%s" % (
+                        tr["al_auto"], tr["lc_auto"], tr["over_auto"], tr["one_auto"], tr["auto"]) if tr.get("auto", "none") != "none" else "")
 
 
 def _what_bag(tr):
@@ -714,12 +766,16 @@ def run(ctx):
                 "per frame and again with a second constant per frame; every bag of 1..3 hypotheses with weights 1..3, LM weights "
                 "{.1,.4,.9} and lm_weight in {none, 0, 1/2, 1, 2}; non-trivial = some character confidence strictly between 0 and 1; "
                 "a seeded sample of the initial states (250 / 2500 per config) and every second ALTO case again as a history on one "
-                "long-lived page / line (logits re-assigned between the calls)")
+                "long-lived page / line (logits re-assigned between the calls); D = 1 configurations: every one-hot matrix (CTC output with "
+                "runs of equal frames, adjacent characters, label strings of up to 3 characters), where the rows are one-hot also asked with the "
+                "alignment the code finds itself (align_text)")
     ctx.assume("shift invariance is asserted with the alignment held fixed (Appendix D); compute_line_confidence only when every frame has a "
                "unique best symbol (a tie may flip under round-off)",
                "thresholds of the confident-line test compared across the shift lie strictly between attainable values (odd multiples of 1/(2D))",
                "tolerances: 1e-9 for range / invariance / one-hot, 1e-9 * n for the posterior sum, 2e-6 for equality with the exact rational (drift only)",
                "a stored logit of exactly 0.0 means 'absent' in the sparse encoding; shifts producing an exact 0.0 are not generated",
+               "one-hot => 1 is asserted for every one-hot matrix whose hot symbols spell the transcription along a CTC path with runs, for every "
+               "alignment that puts character i on a frame of its run (decided by TLC: Confidence!OneHotForOf) and for the alignment align_text finds",
                "history cases replace the logits of a long-lived line by assignment to its public `logits` attribute (what PageOCR.process_page "
                "and merge_ocr_results do); the statement is read as: every answer is about the posteriors the line carries at the call",
                "word / line confidences of the ALTO export (WC attribute, transcription_confidence) are observed on texts made of letters and single "
@@ -758,6 +814,26 @@ def run(ctx):
                 return tr
             ctx.selftest_corrupt("Confidence_Trace", good, corrupt2, constants=consts_of(c, strict=False))
         first = False
+        if c["D"] == 1 and not rej:
+            # binding of the round-8 one-hot clause: a matrix whose FIRST character holds a run of frames that reaches into the
+            # evidence window of the second one (a,..,a,b for "ab", aligned first / last frame); a reported value of 1 - 5e-9
+            # for the alignment passed in / for the alignment the code finds itself must be rejected
+            t_, nc_ = c["T"], c["NC"]
+            runs = [[1 if s_ == 0 else 0 for s_ in range(nc_)]] * (t_ - 1) + [[1 if s_ == 1 else 0 for s_ in range(nc_)]]
+            good = next((tr for tr in traces if tr["kind"] == "line" and tr["w"] == runs and tr["labels"] == [0, 1]
+                         and tr["al"] == [1, t_] and tr["auto"] == "ok"), None)
+            if good is None:
+                raise RuntimeError("C16: the run case a..ab / 'ab' is missing from the one-hot configuration " + _lab(c))
+
+            def corrupt3(tr):
+                tr["one"] = 5000
+                return tr
+            ctx.selftest_corrupt("Confidence_Trace", good, corrupt3, constants=consts_of(c, strict=False))
+
+            def corrupt4(tr):
+                tr["one_auto"] = 5000
+                return tr
+            ctx.selftest_corrupt("Confidence_Trace", good, corrupt4, constants=consts_of(c, strict=False))
     # bags of hypotheses
     c = configs("quick")[0]
     items = [(b, (ctx.seed % 1000) * 1000000 + i) for i, b in enumerate(bag_cases())]
